@@ -547,7 +547,12 @@ fn run_beh(beh: &Value, args: &Args, notes: &mut Vec<String>) -> Result<(u64, us
                     (Err(ClientError::ConcurrentTransaction), _) => {
                         return Err(f(si, "C08:spurious-concurrent", "ConcurrentTransaction although no commit intervened".into()))
                     }
-                    (Ok(_), "ParallelFinalize") => return Err(f(si, "C05:missed-parallel-finalize", "concurrent finalize commands were committed".into())),
+                    (Ok(_), "ParallelFinalize") => {
+                        // C08 as well: the commit must fail and leave the committed state untouched
+                        let mut e = f(si, "C05:missed-parallel-finalize", "concurrent finalize commands were committed".into());
+                        e.also.push("C08:commit-succeeded-instead-of-failing".into());
+                        return Err(e);
+                    }
                     (Err(ClientError::ParallelFinalize), _) => return Err(f(si, "C05:spurious-parallel-finalize", "finalize commands are causally ordered".into())),
                     (Err(e), _) => {
                         let key = if was_poisoned { "C06:commit-after-reject" } else { "C08:commit-failed" };
